@@ -19,10 +19,10 @@ CHECKS = {
                 text="Exact equality of every recorded ts_scheduled/ts_max/ts_start/ts_end/delay/phase_scheduled and message ts_sent/ts_recv with the law; derived spacing/phase/advance claims are TLC invariants of the law."),
     "C05": dict(level="model_checking", ref="6 C05",
                 technique="PlusCal model of the synchronizer/lifecycle hand-shake (RexSync) exhaustively + deterministic gate-scheduler exploration of the real AsyncGraph over lifecycle histories (random / PCT / burst / user-first / user-last policies and a one-preemption sweep over the instants at which the next call begins) + trace validation of consecutive episodes; internal traces of coarse-gate executions validated against the PlusCal model of the task structure (RexAsync)",
-                text="RexSync (one label per shared access) has no stall state for any protocol history up to the bound with stop() as repaired, and finds both pinned defects with Fixed=FALSE; the real code is driven through 8 lifecycle histories x gate schedules: a logical deadlock, an escaped exception or a failed worker task is a violation; records of later episodes must be behaviours of the law from seq 0 / time 0 with payloads of their own episode only. The same histories run under Clock.WALL_CLOCK (gate, strictly increasing virtual time): calls must return, completed episodes are validated by RexOrder (sequence numbers from 0)."),
+                text="RexSync (one label per shared access) has no stall state for any protocol history up to the bound with stop() as repaired, and finds both pinned defects with Fixed=FALSE; the real code is driven through 8 lifecycle histories x gate schedules: a logical deadlock, an escaped exception or a failed worker task is a violation; records of later episodes must be behaviours of the law from seq 0 / time 0 with payloads of their own episode only. The same histories run under Clock.WALL_CLOCK (gate, strictly increasing virtual time): calls must return, completed episodes are validated by RexOrder (sequence numbers from 0, episode clock from 0 although one node's startup() hook takes 5 virtual seconds)."),
     "C06": dict(level="model_checking", ref="6 C06",
                 technique="trace validation: probe-log execution counts against RexLaw ticks (RexTrace clauses ExactlyOnce*) and against the abstract machine of the compiled runtime (RexRun: RU/RS/RSo/RSx micro-operations over the projected Graph.timings)",
-                text="The host-side probe log is the execution count: RexTrace consumes exactly one log entry per executed tick in sequence order, none for overridden / cancelled supervisor ticks, and rejects leftovers. Compiled: RexRun consumes per generation exactly the run=True slots, none for masked slots, overridden supervisor steps and kinds in Graph(skip=[...]); rollouts of every stacked episode, gym-style histories with overrides, a full-length gym episode (the only way to reach the last partition), stacked episodes whose run masks differ."),
+                text="The host-side probe log is the execution count: RexTrace consumes exactly one log entry per executed tick in sequence order, none for overridden / cancelled supervisor ticks, and rejects leftovers. Compiled: RexRun consumes per generation exactly the run=True slots, none for masked slots, overridden supervisor steps and kinds in Graph(skip=[...]); rollouts of every stacked episode, gym-style histories with overrides, a full-length gym episode (the only way to reach the last partition), stacked episodes whose run masks differ, runs from out-of-range episode indices; outside an episode a warmup() not asked to profile executes no step function."),
 }
 
 
@@ -41,7 +41,7 @@ CHECKS.update({
                 text="TLC enumerates all call histories over run/reset/step/step-with-override/rollout up to the bound; each is replayed jitted (and eagerly for a sample): probe log, step counter, sequence numbers and node states must follow RexRun; histories with the same normal form must leave bitwise identical GraphState pytrees; init() clipping and params override, vmapped = un-batched, full-trajectory = carry-only rollout."),
     "C13": dict(level="model_checking", ref="6 C13",
                 technique="trace validation: records against probe logs inside RexTrace / RexRun (Record* clauses), cross-run agreement (Deterministic, InertLog) over record-flag combinations and max_records",
-                text="Threaded runtime: every record-flag combination and truncation of the same graph/seed/history must be a behaviour of RexLaw, agree with the fully recorded run on the common prefix and leave the probe logs identical; compiled runtime: aux['record'] rows equal the probe log for executed steps and stay -1 otherwise, final GraphState minus the record is identical with and without recording."),
+                text="Threaded runtime: every record-flag combination and truncation of the same graph/seed/history must be a behaviour of RexLaw, agree with the fully recorded run on the common prefix and leave the probe logs identical; compiled runtime: aux['record'] rows (start, state, output, rng position, the input windows the step was called with) equal the probe log for executed steps and stay -1 otherwise, final GraphState minus the record is identical with and without recording."),
 })
 
 CHECKS.update({
